@@ -201,6 +201,18 @@ impl ToplevelDefinition {
                     }
                     _ => None,
                 };
+                // the dummy references of a parameterized type hide definitions of the same name
+                let mut scoped;
+                let tlds = match &t.parameterization {
+                    Some(p) if p.parameters.iter().any(|a| tlds.contains_key(&a.dummy_reference)) => {
+                        scoped = tlds.clone();
+                        for a in &p.parameters {
+                            scoped.remove(&a.dummy_reference);
+                        }
+                        &scoped
+                    }
+                    _ => tlds,
+                };
                 if let Some(replacement) = t.ty.link_constraint_reference(&t.name, tlds)? {
                     t.ty = replacement;
                     if t.tag.is_none() {
